@@ -207,7 +207,7 @@ func (w *World) pickHashes(pool []H, picks []int) []H {
 }
 
 func (w *World) opPrune(n *Node, s *Step) {
-	if !n.isPartial() || n.crashed {
+	if !n.isPartial() || n.crashed || n.cfg.FullRoots {
 		return
 	}
 	if n.tainted {
